@@ -416,6 +416,22 @@ impl G {
                     _ => format!("let {r} = [{v1}]; {r}.push({exit_tr});"),
                 }
             }
+            St::Alias(kind) => {
+                self.features.push("examinee_reassigned");
+                let x = self.fresh("x");
+                let y = self.fresh("y");
+                let c = self.cond();
+                let v1 = self.v();
+                let v2 = self.v();
+                match kind {
+                    0 => format!("let {x} = opt(true, {v1}); match {x} {{ Some({y}) if {{ {x} = Option.None; false }} => {{ }}, Some({y}) => {{ emit_tr({y}); }}, None => {{ }}, }}"),
+                    1 => format!("let {x} = opt(true, {v1}); match {x} {{ Some({y}) => {{ {x} = Option.None; emit_tr({y}); }}, None => {{ }}, }}"),
+                    2 => format!("let {x} = [{v1}, {v2}]; for {y} in {x} {{ {x} = []; emit_tr({y}); }}"),
+                    3 => format!("let {x} = En.A({v1}, {v2}); match {x} {{ A({y}, {y}q) if {{ {x} = En.C; false }} => {{ }}, A({y}, {y}q) => {{ emit_tr({y}q); emit_tr({y}); }}, _ => {{ }}, }}"),
+                    4 => format!("let {x} = opt(true, {v1}); match {x} {{ Some({y}) if {{ {x} = opt({c}, {v2}); {c} }} => {{ emit_tr({y}); }}, Some({y}) => {{ emit_tr({y}); emit_tr(pay({x})); }}, None => {{ }}, }}"),
+                    _ => format!("let {x} = R {{ t: {v1}, n: 1 }}; match opt(true, {x}.t) {{ Some({y}) if {{ {x}.t = {v2}; false }} => {{ }}, Some({y}) => {{ emit_tr({y}); emit_tr({x}.t); }}, None => {{ }}, }}"),
+                }
+            }
             St::ShortCircuit => {
                 self.features.push("short_circuit_owned_temp");
                 let x = self.fresh("c");
@@ -459,9 +475,21 @@ pub enum St {
     /// assignment, `for` iterable (17), nested record / Some(record) (18), nested
     /// list (19), block value (20), `while` (21) and `if` (22) condition
     ExitIn(u8),
+    /// the variable a construct is working on is reassigned while the construct still
+    /// uses it: match examinee reassigned by a failing guard (0), by the arm body (1),
+    /// `for` iterable reassigned by the body (2), two-payload examinee reassigned by a
+    /// failing guard (3), examinee reassigned by a guard that may succeed (4), the
+    /// record a matched field came from reassigned by the guard (5)
+    Alias(u8),
 }
 
-pub const STMTS: [St; 46] = [
+pub const STMTS: [St; 52] = [
+    St::Alias(0),
+    St::Alias(1),
+    St::Alias(2),
+    St::Alias(3),
+    St::Alias(4),
+    St::Alias(5),
     St::ExitIn(11),
     St::ExitIn(12),
     St::ExitIn(13),
